@@ -320,6 +320,19 @@ def ipAuthWith (dec : BitStr → Res Block) (cn : List Char) (e : Ext) (p : Peer
 
 def ipAuth := ipAuthWith decode
 
+/-- the TLS branch of `checkAuth(…, AuthTypeAny)` for a verified chain of `chainLen` certificates whose
+leaf has CN `cn` and extension `e`, signed with the keymaster key: `getUsernameIfKeymasterSigned` skips
+chains shorter than 2 and every leaf that carries the address-delegation OID — **whatever its value**
+(`IsIPRestrictedX509Cert` = `Ext.restricted`) — and names the CN otherwise (deny-listed key: nobody);
+when it names nobody `getUsernameIfIPRestricted` decides.  Request headers play no part: the peer is
+`r.RemoteAddr`. -/
+def authAnyWith (dec : BitStr → Res Block) (chainLen : Nat) (cn : List Char) (e : Ext) (p : Peer)
+    (env : Env) : Auth :=
+  if 2 ≤ chainLen ∧ e.restricted = false ∧ env.denied = false ∧ cn ≠ [] then .user cn
+  else ipAuthWith dec cn e p env
+
+def authAny := authAnyWith decode
+
 inductive Refresh where
   | issued (cn : List Char) (nets : List Block)   -- 200: new certificate for (cn, nets)
   | status (code : Nat)
